@@ -1,0 +1,1 @@
+//! verif-hooks: units area (read-only accessors; see mod.rs)
